@@ -28,7 +28,24 @@ def run(tier, seed):
         os.remove(trace)
     dom_viewer(rep, quick, seed)
     xml_option_matrix(rep, quick, seed)
+    convertible_inputs(rep, quick, seed)
     return rep.finish()
+
+
+def convertible_inputs(rep, quick, seed):
+    """Values of a type both writers convert to the declared one (Int32 -> Int64 / BrickColor, Float32 ->
+    Float64, EnumItem -> Enum): both codecs accept them, agree, and store the converted value (ConvOK)."""
+    from bin_checks import export_db, validate_cases, cleanup, find_event
+    trace = os.path.join(OUT, "extra_convertible.ndjson")
+    rbxv(["cross-cases", "--convertible", "1", "--seed", seed, "--count", 300 if quick else 8000], stdout_path=trace)
+    n, fails = validate_cases("CrossFormatTrace", trace, {"DBJSON": export_db()})
+    for c in fails:
+        for k, cls, prop, what in (c.get("issues") or [[0, "", "", ""]]):
+            rep.violation("convertible|%s|%s.%s|%s" % (c["clause"], cls, prop, what),
+                          lambda c=c: {"case": c, "event": find_event(c["part"], c["ep"])},
+                          "%s: %s %s.%s %s" % (c["ep"], c["clause"], cls, prop, what))
+    log("[extras] convertible inputs: %d cases judged by CrossFormatTrace.tla (ConvOK, CrossIssues)" % n)
+    cleanup(trace, rep)
 
 
 def xml_option_matrix(rep, quick, seed):
